@@ -101,6 +101,10 @@ def close(a: Fraction, b: Fraction, scale_days: Fraction) -> bool:
 
 
 def run(ctx: Ctx):
+    from translator import extract_exprs
+
+    ch, info = extract_exprs.generate()     # the operator branches and duration formats, from the `ast` of _time.py
+    ctx.extra["source_functions_not_translated"] = info["not_translated"]
     ctx.proof = common.prove("C03")
     Time, TimeDelta = _imp()
     drv = ctx.driver
